@@ -130,7 +130,7 @@ pub fn run(rest: &str) -> String {
                 .collect();
             if parts.is_empty() { ".".into() } else { parts.join(" ") }
         }
-        "de" | "fde" => {
+        "de" | "fde" | "ide" => {
             let part = t.next();
             let stream = unhex(t.next());
             let mut de = ChunkDeserializer::new();
